@@ -258,6 +258,48 @@ def check_one(case):
                     label, list(r5['k']) if isinstance(r5, dictable) else r5, list(r5['data']) if isinstance(r5, dictable) else None, surviving, want5), generic=True, shared=False, extra_data_column=True, **sig)
         except Exception as e:
             out.viol('perdictable-raised', "%s with tables also holding a column called 'data' raised %s: %s" % (label, type(e).__name__, e), exc=type(e).__name__, generic=True, **sig)
+    # ---------------- a None CELL of a defaulted table input is a value (f gets None for that key); only keys the table LACKS receive the default
+    if data is None and surviving and any(n in tabs and tabs[n] for n in dfl):
+        out.sub()
+        calls[:] = []
+        holes = {n: sorted(tabs[n])[0] for n in dfl if n in tabs and tabs[n]}          # input -> the key whose cell is None
+
+        def ntable(n, ks):
+            ks = list(ks)[::-1]
+            return dictable({'k': ks, n: [None if holes.get(n) == k else '%s:%s' % (n, k) for k in ks]})
+        kw6 = {n: ('%s:*' % n if assign[n] == 'scalar' else ntable(n, assign[n])) for n in names}
+
+        def val6(n, k):
+            return None if holes.get(n) == k else value_of(n, k)
+        try:
+            r6 = perdictable(f, on='k', defaults=dict(defaults))(**kw6)
+            out.call()
+            want6 = ['f(%s)' % ','.join([str(val6(n, k)) for n in names] + ['None'] * (4 - len(names))) for k in surviving]
+            if not isinstance(r6, dictable) or list(r6['k']) != surviving or list(r6['data']) != want6:
+                out.viol('wrong-value', "%s, the defaulted tables holding a None cell at %s: got keys %s values %s, expected keys %s values %s" % (
+                    label, holes, list(r6['k']) if isinstance(r6, dictable) else r6, list(r6['data']) if isinstance(r6, dictable) else None, surviving, want6), generic=True, shared=False,
+                    none_cell=True, **sig)
+        except Exception as e:
+            out.viol('perdictable-raised', "%s with a None cell in a defaulted table raised %s: %s" % (label, type(e).__name__, e), exc=type(e).__name__, generic=True, none_cell=True, **sig)
+    # ---------------- the expiry given as ONE scalar for all rows (a past date, a future date, None) next to a table of previously computed values
+    if data is None and surviving and tabs:
+        for ename, ev, keeps in (('past', PAST, True), ('future', FUTURE, False), ('None', None, False)):
+            out.sub()
+            calls[:] = []
+            kw7 = inputs()
+            kw7['data'] = dictable({'k': list(surviving)[::-1], 'data': ['old:%s' % k for k in list(surviving)[::-1]]})
+            kw7['expiry'] = ev
+            try:
+                r7 = perdictable(f, on='k', defaults=dict(defaults) if dfl else {})(**kw7)
+                out.call()
+                want7 = ['old:%s' % k if keeps else 'f(%s)' % ','.join([value_of(n, k) for n in names] + ['None'] * (4 - len(names))) for k in surviving]
+                ncalls = 0 if keeps else len(surviving)
+                if not isinstance(r7, dictable) or list(r7['k']) != surviving or list(r7['data']) != want7 or len(calls) != ncalls:
+                    out.viol('wrong-value' if len(calls) == ncalls else 'wrong-call-count', "%s, data for every key and the scalar expiry %s: got keys %s values %s with %d calls of f, expected values %s with %d calls" % (
+                        label, ename, list(r7['k']) if isinstance(r7, dictable) else r7, list(r7['data']) if isinstance(r7, dictable) else None, len(calls), want7, ncalls),
+                        kept=keeps, kept_called=keeps and len(calls) > 0, scalar_expiry=ename, **sig)
+            except Exception as e:
+                out.viol('perdictable-raised', "%s with the scalar expiry %s raised %s: %s" % (label, ename, type(e).__name__, e), exc=type(e).__name__, scalar_expiry=ename, **sig)
     # ---------------- no table at all, but a value that is a list / tuple / range / empty list: it is a VALUE (f gets it whole, once), not a column
     if data is None and not tabs and not dfl:
         for vname, v in (('[5]', [5]), ('[]', []), ('[1, 2, 3]', [1, 2, 3]), ("('T',)", ('T',)), ('range(2)', range(2))):
